@@ -58,7 +58,8 @@ let run (path : string) =
             ~detail:(Printf.sprintf "%s_%s_breaker=%b_esm=%d_mask=%d_cls=%s_changed=%b" handler tag breaker esm mask cls changed);
         if (not breaker) && esm = 0 then
           if not (holds_C14_price (mask <> 0) (needed <> 0) ok base_ok same changed) then
-            predfail ~case:id ~step:1 ~pred:"holds_C14_price" ~kf:"none"
+            predfail ~case:id ~step:1 ~pred:"holds_C14_price"
+              ~kf:(if kf_C14_bid_stale_debt_price h (needed <> 0) ok base_ok same then "kf_C14_bid_stale_debt_price" else "none")
               ~detail:(Printf.sprintf "%s_%s_inactive-mask=%d_prices-read-when-active=%d_inactive-and-needed=%d_cls=%s_all-active-cls=%s_same-outcome=%b" handler tag mask reads needed cls base_cls same)
       | "case" :: id :: "sweep" :: name :: breaker :: div :: cls :: started :: [] ->
         incr cases; incr steps;
